@@ -170,6 +170,51 @@ func runFrame(b *tv.Batch, cs frameCase) {
 	r.Ev("end", nil)
 }
 
+// runFrameBig drives the REAL segment loop over a stream of tens of thousands of segments (tiny segment size).  Every
+// emitted segment is checked here the way the contract's CEmit does (counter = index, position, size, last flag, bytes)
+// and the run is reported as ONE bulk event; the consumer's reads are summed up the same way.
+func runFrameBig(b *tv.Batch, S, segments int) {
+	total := segments * S
+	b.Start(tv.M{"S": S, "len": total, "segments": segments})
+	data := plaintext(total, int64(segments))
+	src := encref.New(data, encref.Script{ChunkSize: 4096, ErrAt: -1}, nil)
+	pr, pw := io.Pipe()
+	count, ok := 0, true
+	fn := func(out io.Writer, d []byte, num uint32, last bool) error {
+		from := count * S
+		if int(num) != count || len(d) == 0 || from+len(d) > total || (from+len(d) < total && len(d) != S) || last != (from+len(d) == total) || !bytes.Equal(d, data[from:from+len(d)]) {
+			ok = false
+		}
+		count++
+		_, err := out.Write(d)
+		return err
+	}
+	go v1.VerifProcessSegments(src, pw, fn, S)
+	buf := make([]byte, 4096)
+	n, rok := 0, true
+	var term error
+	deadline := time.Now().Add(60 * time.Second)
+	for term == nil {
+		m, err := pr.Read(buf)
+		if n+m > total || !bytes.Equal(buf[:m], data[n:n+m]) {
+			rok = false
+		}
+		n += m
+		term = err
+		if time.Now().After(deadline) {
+			_ = pr.CloseWithError(errors.New("verif: watchdog"))
+			break
+		}
+	}
+	b.Ev("srcread", tv.M{"k": 0, "n": src.Pos(), "err": "eof"})
+	b.Ev("bulk", tv.M{"count": count, "ok": ok})
+	b.Ev("read", tv.M{"k": n + 1, "n": n, "err": "nil", "ok": rok})
+	if term != nil {
+		b.Ev("read", tv.M{"k": 1, "n": 0, "err": streamClass(term), "ok": true, "msg": term.Error()})
+	}
+	b.Ev("end", nil)
+}
+
 func frameCases(S int, thorough bool, rng *rand.Rand) []frameCase {
 	var out []frameCase
 	cbufs := []int{1, 2, S, S + 1, 64}
@@ -1227,7 +1272,7 @@ func TestCheck(t *testing.T) {
 				mcRun(e, module, cfg, 3*time.Minute, true)
 			}()
 		}
-		for _, d := range []string{"MC_framing_defect_swallow.cfg", "MC_framing_defect_nocarry.cfg", "MC_framing_defect_eager-last.cfg", "MC_framing_defect_empty-read-budget.cfg"} {
+		for _, d := range []string{"MC_framing_defect_swallow.cfg", "MC_framing_defect_nocarry.cfg", "MC_framing_defect_eager-last.cfg", "MC_framing_defect_empty-read-budget.cfg", "MC_framing_defect_small-counter-limit.cfg"} {
 			defect("EncFraming", d)
 		}
 		for _, d := range []string{"MC_format_defect_alias.cfg", "MC_format_defect_omit.cfg", "MC_format_defect_hdr-off-by-one.cfg", "MC_format_defect_hdr-none.cfg", "MC_format_defect_wipes-key.cfg"} {
@@ -1259,7 +1304,19 @@ func TestCheck(t *testing.T) {
 			e.Nontrivial(fmt.Sprintf("frame %v", cs))
 		}
 	}
-	fmt.Printf("framing: %d runs of the real loop recorded\n", len(fcases))
+	// streams of more than 2^16 segments (the documented limit is 2^32): the loop must process them to the end
+	bigSegs := [][2]int{{1, 65535}, {1, 65536}, {1, 65537}, {1, 70000}, {2, 65536}, {3, 65537}}
+	if thorough {
+		bigSegs = append(bigSegs, [2]int{1, 1<<17 + 1}, [2]int{1, 1 << 20}, [2]int{4, 1<<16 + 1}, [2]int{1, 1<<24 + 1})
+	}
+	nSmall := len(fcases)
+	for _, bs := range bigSegs {
+		runFrameBig(fb.cur(), bs[0], bs[1])
+		fb.note(len(fcases))
+		fcases = append(fcases, frameCase{S: bs[0], Len: bs[0] * bs[1], Script: encref.Script{ChunkSize: 4096, ErrAt: -1}, CBuf: 4096})
+		e.Nontrivial(fmt.Sprintf("frame-big S=%d segments=%d", bs[0], bs[1]))
+	}
+	fmt.Printf("framing: %d runs of the real loop recorded (%d with more than 65534 segments)\n", len(fcases), len(fcases)-nSmall)
 
 	// 3. real Encrypt / Decrypt at the real segment size
 	dcases := docCases(thorough, rng)
@@ -1318,7 +1375,7 @@ func TestCheck(t *testing.T) {
 	e.Set("transitions", mcFraming.Generated+mcFormat.Generated+mcPosition.Generated)
 	e.Set("checker_cmd", mcFraming.Cmd+" ; "+mcFormat.Cmd)
 	e.Set("model_checks", tv.M{"EncFraming": tv.M{"distinct": mcFraming.Distinct, "generated": mcFraming.Generated, "depth": mcFraming.Depth},
-		"EncV1Format": tv.M{"distinct": mcFormat.Distinct, "generated": mcFormat.Generated}, "EncPosition": tv.M{"distinct": mcPosition.Distinct}, "defect_configs_rejected": 11})
+		"EncV1Format": tv.M{"distinct": mcFormat.Distinct, "generated": mcFormat.Generated}, "EncPosition": tv.M{"distinct": mcPosition.Distinct}, "defect_configs_rejected": 12})
 
 	// 4. TLC judges the recorded executions
 	frej, ftr, fl, _, ferr := fb.validate("TraceEncFraming", ev.Pick(6*time.Minute, 40*time.Minute))
@@ -1396,7 +1453,12 @@ func TestCheck(t *testing.T) {
 	}
 	for _, r := range frej {
 		cs := fcases[r.Case]
-		e.Violation("framing:"+cs.class()+":"+slug(r.Why), fmt.Sprintf("segment loop, S=%d len=%d: %s", cs.S, cs.Len, r.Why), tv.M{"case": cs, "trace": r.Trace, "at": r.At})
+		key, what := "framing:"+cs.class()+":"+slug(r.Why), fmt.Sprintf("segment loop, S=%d len=%d: %s", cs.S, cs.Len, r.Why)
+		if r.At < len(r.Trace) && strings.Contains(r.Trace[r.At], "too large") && cs.Len/cs.S < 1<<32-1 {
+			key = "framing:stream-too-large-below-the-documented-limit"
+			what = fmt.Sprintf("segment loop, S=%d, %d segments: stream refused although within the documented limit of 2^32 segments [%s]", cs.S, (cs.Len+cs.S-1)/cs.S, r.Trace[r.At])
+		}
+		e.Violation(key, what, tv.M{"case": cs, "trace": r.Trace, "at": r.At})
 	}
 	for _, r := range drej {
 		cs := dcases[r.Case]
